@@ -13,7 +13,7 @@ struct tracked : P {
     using P::operator=;
     void *alloc(std::size_t sz) {
         void *p = P::alloc(sz);
-        hz::slot_add(32, 1);
+        hz::slot_add(32, 1); hz::slot_set(37, (long)sz);
         if (sz > (std::size_t)hz::slot_get(34)) hz::slot_set(34, (long)sz);
         int r = hz::range_add(p, sz);
         if (r == 0) hz::fail("storage policy handed out memory [%p,+%zu) that overlaps a frame which is still alive", p, sz);
@@ -66,7 +66,7 @@ inline SeqProg decode_seq(hz::Reader &r) {
     while (r.more() && n < 40) { Op o; o.code = (uint8_t)r.mod(4); o.a = r.u8(); p.ops.push_back(o); n++; }
     return p;
 }
-static const char *pn[] = {"default_storage", "reusable_storage", "reusable_storage_mtsafe", "stack_storage(alloca + heap fallback)", "placement_alloc", "reusable_buffer_storage<vector<char>>", "promise_extra_storage<Extra, Base>"};
+static const char *pn[] = {"default_storage", "reusable_storage", "reusable_storage_mtsafe", "stack_storage(alloca + heap fallback)", "placement_alloc", "reusable_buffer_storage<vector<char | 24-byte record>>", "promise_extra_storage<Extra, Base>"};
 inline std::string describe_seq(const SeqProg &p) {
     static const char *xn[] = {"[Extra = 16-byte struct aligned to 4, Base = default_storage]", "[Extra aligned to 16, Base = default_storage]", "[Extra aligned to 4, Base = reusable_storage_mtsafe]", "[Extra aligned to 16, Base = reusable_storage_mtsafe]"};
     hz::Desc d; d << pn[p.policy]; if (p.policy == P_EXTRA) d << xn[p.ops.empty() ? 0 : p.ops[0].a / 3 % X_COUNT]; d << ", " << (unsigned)p.ops.size() << " ops:";
@@ -118,7 +118,7 @@ struct SeqRun {
     }
     // generic body for policies that are one object serving many frames
     template<class A>
-    void history(A &alloc, const SeqProg &p, bool single_use, bool reusing, bool mtsafe) {
+    void history(A &alloc, const SeqProg &p, bool single_use, bool reusing, bool mtsafe, const std::function<void()> &after_create = {}) {
         long max_size_seen = 0;
         for (auto &o : p.ops) {
             if (o.code == 2) { if (!frames.empty()) complete(*frames[o.a % frames.size()]); continue; }
@@ -148,6 +148,7 @@ struct SeqRun {
             long this_size = hz::slot_get(34) >= before_max ? hz::slot_get(34) : before_max;
             (void)this_size;
             st.creates++;
+            if (after_create) after_create();
             if (live() > st.max_live) st.max_live = live();
             if (reusing) {
                 // equally sized (or smaller) frames after warm-up: no heap allocation
@@ -210,6 +211,15 @@ struct SeqRun {
         HZ_CHECK(hz::slot_get(36) == 0, "%ld attached extra objects still alive after every frame was released", hz::slot_get(36));
         stor.clear();      // the storages' own blocks are released here, exactly once (ASan: double free / use after free otherwise)
     }
+    struct Rec24 { long a, b, c; };
+    template<class E>
+    void buffer_history(const SeqProg &p) {
+        std::vector<E> buf; tracked<cocls::reusable_buffer_storage<std::vector<E>>> a(buf);
+        history(a, p, true, true, false, [&buf] {
+            std::size_t need = (std::size_t)hz::slot_get(37);
+            HZ_CHECK(buf.size() * sizeof(E) >= need, "the reusable buffer holds %zu elements of %zu bytes = %zu bytes, the frame it hosts needs %zu bytes", buf.size(), sizeof(E), buf.size() * sizeof(E), need);
+        });
+    }
     void run(const SeqProg &p) {
         switch (p.policy) {
             case P_DEFAULT: { tracked<cocls::default_storage> a; history(a, p, false, false, false); } break;
@@ -228,7 +238,10 @@ struct SeqRun {
                 history(a, p, true, false, false);
                 for (auto &f : frames) (void)f;
             } break;
-            case P_REUSABLE_BUFFER: { std::vector<char> buf; tracked<cocls::reusable_buffer_storage<std::vector<char>>> a(buf); history(a, p, true, true, false); } break;
+            case P_REUSABLE_BUFFER:
+                // the user's container: bytes, or 24-byte records (an element size that does not divide the frame sizes)
+                if (!p.ops.empty() && (p.ops[0].a & 64)) buffer_history<Rec24>(p); else buffer_history<char>(p);
+                break;
             default:
                 switch (p.ops.empty() ? 0 : p.ops[0].a / 3 % X_COUNT) {
                     case X_INT_DEFAULT: extra_history<Extra, cocls::default_storage>(p); break;
